@@ -20,6 +20,11 @@ CHECKS = {
         technique='exhaustive enumeration of a subclass family (plain / __repr__+__str__ overriding / IntEnum) of the nine built-in bases x per-base value alphabets x nine placements x every width 1..L+3; output evaluated and compared with class-aware typed equality',
         text='Every instance of the generated subclass family is printed at top level, next to a 30-column sibling, after short and long dict keys, as call argument, dict key and set element, at every width from 1 to its one-line length + 3; evaluation must give back the same subclass around an equal base value. The failing regions need a coincidence (too wide for the rest of the line yet fitting a line of its own; a subclass overriding __repr__) that only a full width sweep next to fixed-length siblings reaches.',
         note='trusted: CPython eval, typed_eq/canon in mc/oracles.py; subclass families and value alphabets are small by design'),
+    'C09': dict(
+        category='exploration', design_ref='DESIGN.md 4/C09',
+        technique='exhaustive enumeration of all placements of comment / trailing_comment / both on the nodes of 24 value shapes x an adversarial text alphabet (newlines, blank lines, quotes, #, brackets, 100-column words) x widths; AST equality with the uncommented print and word-subsequence check on the COMMENT tokens',
+        text='For every shape every assignment of {none, comment, trailing comment, both} to its nodes is printed, with all texts on single-comment placements and all text pairs on two-comment placements, at ten (quick) / 42 (thorough) widths. The output must parse to exactly the syntax tree of the uncommented value (so a comma sliding into a comment, or a comment line swallowing an element, is a structural difference), no printer may fall back to repr, and every word of every comment must occur in order inside COMMENT tokens. The suite only checks that commented values do not raise.',
+        note='trusted: CPython ast/tokenize; trailing comments are attached only to the types whose printers accept them; shapes are small by design'),
     'C10': dict(
         category='exploration', design_ref='DESIGN.md 4/C10',
         technique='exhaustive enumeration of container trees (10 kinds, lengths 0..5, three levels) x N in {1..5, None, 10**6} x widths x key sorting; output evaluated against a reference truncation and every truncation notice attributed to its container through AST spans',
